@@ -43,6 +43,9 @@ func (w *withCodec) Exec(op Tok) (opOut Tok, obs Tok) {
 	}()
 	a := op.L
 	inv := TL(TNu(9))
+	if c := a[0].I(); c == opWriteTo || c == opExport {
+		opOut = TL(a[0], a[1]) // the label is harness-side only (also when the call panics)
+	}
 	switch a[0].I() {
 	case opWriteTo:
 		c := w.codecAt(a[1].I())
